@@ -169,7 +169,8 @@ def render_genbank(genome, feats, rng=None):
         out.append('                     /gene="%s"' % f.name)
         out.append("                     /codon_start=%d" % f.codon_start)
         tr = f.translation(genome)[:-1]
-        lines = [tr[i:i + 40] for i in range(0, len(tr), 40)] or [""]
+        tw = 40 if zlib.crc32(genome.encode()) % 3 else 4          # a quoted value may be cut into lines anywhere: short proteins too
+        lines = [tr[i:i + tw] for i in range(0, len(tr), tw)] or [""]
         if len(lines) == 1:
             out.append('                     /translation="%s"' % lines[0])
         else:
@@ -185,6 +186,10 @@ def render_genbank(genome, feats, rng=None):
         chunk = low[i:i + 60]
         out.append("%9d %s" % (i + 1, " ".join(chunk[j:j + 10] for j in range(0, len(chunk), 10))))
     out.append("//")
+    # flat files are also met as fixed-length 80-column records: every line padded with blanks (decided by the text itself, so that
+    # the stream of `rng` is what it was)
+    if rng and zlib.crc32(genome.encode()) % 5 < 2:
+        out = [l.ljust(80) for l in out]
     return ("\n".join(out) + "\n").encode()
 
 
